@@ -20,9 +20,13 @@ Proof. induction l as [|x l IH]; intros [|n] [|k] H; cbn; auto; try congruence. 
 
 (* ---------------------------------------------------------------- latest assignment *)
 Definition latest_cell (a : nat) (ops : list wop) (d : option bool) : option bool :=
-  fold_left (fun d o => match o with WCellOv a' p => if Nat.eqb a' a then p else d | _ => d end) ops d.
+  fold_left (fun d o => match o with
+                        | WCellOv a' p | WReadCell a' (OpSet p) => if Nat.eqb a' a then p else d
+                        | _ => d end) ops d.
 Definition latest_set (i : nat) (ops : list wop) (d : option bool) : option bool :=
-  fold_left (fun d o => match o with WSetOv i' p => if Nat.eqb i' i then p else d | _ => d end) ops d.
+  fold_left (fun d o => match o with
+                        | WSetOv i' p | WRead i' (OpSet p) => if Nat.eqb i' i then p else d
+                        | _ => d end) ops d.
 
 (* what one step does to the objects that already exist *)
 Definition frame (w w' : world) (ops : list wop) : Prop :=
@@ -32,20 +36,36 @@ Definition frame (w w' : world) (ops : list wop) : Prop :=
   (forall i, i < length (sets w) ->
      h_ms (set_at w' i) = h_ms (set_at w i) /\ h_ov (set_at w' i) = latest_set i ops (h_ov (set_at w i))).
 
+Lemma frame_set_ov w i p :
+  frame w {| cells := cells w; sets := set_nth i (fun h => {| h_ms := h_ms h; h_ov := p |}) (sets w) |} [WSetOv i p].
+Proof.
+  unfold frame, latest_cell, latest_set, cell_at, set_at. cbn [fold_left cells sets].
+  rewrite set_nth_length. split; [lia|]. split; [lia|]. split; [intros k Hk; auto|]. intros k Hk.
+  destruct (Nat.eqb_spec i k) as [->|N]; [rewrite nth_set_nth_eq by lia | rewrite nth_set_nth_neq by congruence]; split; reflexivity.
+Qed.
+Lemma frame_cell_ov w a p :
+  frame w {| cells := set_nth a (fun c => {| c_sp := c_sp c; c_ov := p |}) (cells w); sets := sets w |} [WCellOv a p].
+Proof.
+  unfold frame, latest_cell, latest_set, cell_at, set_at. cbn [fold_left cells sets].
+  rewrite set_nth_length. split; [lia|]. split; [lia|]. split; [|intros k Hk; auto]. intros k Hk.
+  destruct (Nat.eqb_spec a k) as [->|N]; [rewrite nth_set_nth_eq by lia | rewrite nth_set_nth_neq by congruence]; split; reflexivity.
+Qed.
+Lemma frame_same w o : (forall d a, latest_cell a [o] d = d) -> (forall d i, latest_set i [o] d = d) -> frame w w [o].
+Proof. intros A B. unfold frame. repeat split; auto; now rewrite ?A, ?B. Qed.
 Lemma frame_step w o : frame w (fst (wstep w o)) [o].
 Proof.
-  unfold frame, latest_cell, latest_set, cell_at, set_at. destruct o as [sp ov'|addrs p|i j|i p|a p|i o'|a o']; cbn [wstep fst fold_left cells sets].
-  - rewrite app_length. cbn. repeat split; try lia; intros; rewrite ?app_nth1 by lia; auto.
-  - rewrite app_length. cbn. repeat split; try lia; intros; rewrite ?app_nth1 by lia; auto.
-  - destruct (SetModel.merge _ _); cbn [fst cells sets].
-    + rewrite app_length. cbn. repeat split; try lia; intros; rewrite ?app_nth1 by lia; auto.
-    + repeat split; auto.
-  - rewrite set_nth_length. split; [lia|]. split; [lia|]. split; [intros k Hk; auto|]. intros k Hk.
-    destruct (Nat.eqb_spec i k) as [->|N]; [rewrite nth_set_nth_eq by lia | rewrite nth_set_nth_neq by congruence]; split; reflexivity.
-  - rewrite set_nth_length. split; [lia|]. split; [lia|]. split; [|intros k Hk; auto]. intros k Hk.
-    destruct (Nat.eqb_spec a k) as [->|N]; [rewrite nth_set_nth_eq by lia | rewrite nth_set_nth_neq by congruence]; split; reflexivity.
-  - repeat split; auto.
-  - repeat split; auto.
+  destruct o as [sp ov'|addrs p|i j|i p|a p|i o'|a o']; cbn [wstep fst].
+  - unfold frame, latest_cell, latest_set, cell_at, set_at. cbn [fold_left cells sets].
+    rewrite app_length. cbn. repeat split; try lia; intros; rewrite ?app_nth1 by lia; auto.
+  - unfold frame, latest_cell, latest_set, cell_at, set_at. cbn [fold_left cells sets].
+    rewrite app_length. cbn. repeat split; try lia; intros; rewrite ?app_nth1 by lia; auto.
+  - destruct (SetModel.merge _ _); cbn [fst]; [|now apply frame_same].
+    unfold frame, latest_cell, latest_set, cell_at, set_at. cbn [fold_left cells sets].
+    rewrite app_length. cbn. repeat split; try lia; intros; rewrite ?app_nth1 by lia; auto.
+  - apply frame_set_ov.
+  - apply frame_cell_ov.
+  - destruct o'; cbn [fst]; try (now apply frame_same). apply (frame_set_ov w i p).
+  - destruct o'; cbn [fst]; try (now apply frame_same). apply (frame_cell_ov w a p).
 Qed.
 Lemma latest_cell_cons a o ops d : latest_cell a (o :: ops) d = latest_cell a ops (latest_cell a [o] d).
 Proof. reflexivity. Qed.
@@ -64,8 +84,13 @@ Proof.
     + destruct (S1 i H) as [E _]. destruct (S2 i ltac:(lia)) as [E' _]. congruence.
     + destruct (S1 i H) as [_ E]. destruct (S2 i ltac:(lia)) as [_ E']. rewrite latest_set_cons. congruence.
 Qed.
-(* reads change nothing at all *)
-Theorem reads_do_not_write w i a o : fst (wstep w (WRead i o)) = w /\ fst (wstep w (WReadCell a o)) = w.
+(* reads change nothing at all: contains / in / filter / .prereleases on a set or on a Specifier object leave every object as it was.
+   (In the model this holds by the way wstep is written - the second component of the state is returned untouched; that the real
+   contains/filter/prereleases do not write _prereleases is what the s.world correspondence stream checks.) *)
+Theorem reads_do_not_write w i a o : is_read o = true -> fst (wstep w (WRead i o)) = w /\ fst (wstep w (WReadCell a o)) = w.
+Proof. destruct o; cbn [is_read]; intros H; try discriminate; split; reflexivity. Qed.
+(* an assignment spelled as an op on the object is the assignment *)
+Lemma read_opset_is_assignment w i a p : wstep w (WRead i (OpSet p)) = wstep w (WSetOv i p) /\ wstep w (WReadCell a (OpSet p)) = wstep w (WCellOv a p).
 Proof. split; reflexivity. Qed.
 
 (* ---------------------------------------------------------------- outputs depend only on the latest overrides *)
@@ -84,7 +109,8 @@ Theorem reads_depend_on_latest w ops ops' i o : wf_world w -> i < length (sets w
   (forall a, In a (h_ms (set_at w i)) -> latest_cell a ops (c_ov (cell_at w a)) = latest_cell a ops' (c_ov (cell_at w a))) ->
   snd (wstep (wrun w ops) (WRead i o)) = snd (wstep (wrun w ops') (WRead i o)).
 Proof.
-  intros W Hi ES EC. cbn [wstep snd]. rewrite !resolve_after by assumption. rewrite ES.
+  intros W Hi ES EC. assert (R : resolve (wrun w ops) i = resolve (wrun w ops') i); [|destruct o; cbn [wstep snd]; now rewrite ?R].
+  rewrite !resolve_after by assumption. rewrite ES.
   assert (X : map (fun a => {| m_sp := c_sp (cell_at w a); m_ov := latest_cell a ops (c_ov (cell_at w a)) |}) (h_ms (set_at w i)) =
               map (fun a => {| m_sp := c_sp (cell_at w a); m_ov := latest_cell a ops' (c_ov (cell_at w a)) |}) (h_ms (set_at w i))).
   { apply map_ext_in. intros a Ha. now rewrite (EC a Ha). }
@@ -94,8 +120,8 @@ Theorem cell_reads_depend_on_latest w ops ops' a o : a < length (cells w) ->
   latest_cell a ops (c_ov (cell_at w a)) = latest_cell a ops' (c_ov (cell_at w a)) ->
   snd (wstep (wrun w ops) (WReadCell a o)) = snd (wstep (wrun w ops') (WReadCell a o)).
 Proof.
-  intros Ha E. cbn [wstep snd]. destruct (world_history ops w) as (_ & _ & C & _). destruct (world_history ops' w) as (_ & _ & C' & _).
-  destruct (C a Ha) as [E1 E2], (C' a Ha) as [E1' E2']. now rewrite E1, E2, E1', E2', E.
+  intros Ha E. destruct (world_history ops w) as (_ & _ & C & _). destruct (world_history ops' w) as (_ & _ & C' & _).
+  destruct (C a Ha) as [E1 E2], (C' a Ha) as [E1' E2']. destruct o; cbn [wstep snd]; now rewrite ?E1, ?E2, ?E1', ?E2', ?E.
 Qed.
 
 (* ---------------------------------------------------------------- construction and & share the member objects *)
@@ -139,6 +165,38 @@ Proof.
   - now rewrite set_at_new.
   - rewrite set_at_old by lia. apply W. lia.
 Qed.
+
+(* well-addressed programs keep the world well-formed; in particular every world reached from the empty one by such a program *)
+Lemma wf_world_cells w cs : length (cells w) <= length cs -> wf_world w -> wf_world {| cells := cs; sets := sets w |}.
+Proof.
+  intros L W i Hi. cbn [sets cells] in *. specialize (W i Hi). unfold set_at in *. cbn [sets]. rewrite Forall_forall in *. intros a Ha.
+  specialize (W a Ha). lia.
+Qed.
+Lemma wf_world_set_ov w i p : wf_world w -> wf_world {| cells := cells w; sets := set_nth i (fun h => {| h_ms := h_ms h; h_ov := p |}) (sets w) |}.
+Proof.
+  intros W k Hk. cbn [sets cells] in *. rewrite set_nth_length in Hk. unfold set_at. cbn [sets].
+  destruct (Nat.eq_dec k i) as [->|N]; [rewrite nth_set_nth_eq by lia | rewrite nth_set_nth_neq by congruence]; apply (W _ Hk).
+Qed.
+Lemma wf_world_step w o : wf_world w -> wf_op w o -> wf_world (fst (wstep w o)).
+Proof.
+  intros W F. destruct o as [sp ov'|addrs p|i j|i p|a p|i o'|a o']; cbn [wstep fst wf_op] in *.
+  - apply wf_world_cells; auto. rewrite app_length. lia.
+  - apply wf_world_new; auto. apply Forall_forall. intros a Ha. apply in_a_union in Ha as [[]|Ha]. rewrite Forall_forall in F. auto.
+  - destruct F as [Hi Hj]. destruct (SetModel.merge _ _); cbn [fst]; auto. apply wf_world_new; auto.
+    apply Forall_forall. intros a Ha. pose proof (W i Hi) as Fi. pose proof (W j Hj) as Fj. rewrite Forall_forall in Fi, Fj.
+    apply in_a_union in Ha as [Ha|Ha]; auto.
+  - now apply wf_world_set_ov.
+  - apply wf_world_cells; auto. now rewrite set_nth_length.
+  - destruct o'; cbn [fst]; auto. now apply wf_world_set_ov.
+  - destruct o'; cbn [fst]; auto. apply wf_world_cells; auto. now rewrite set_nth_length.
+Qed.
+Theorem wf_world_run ops : forall w, wf_world w -> wf_ops w ops -> wf_world (wrun w ops).
+Proof.
+  induction ops as [|o ops IH]; intros w W F; [exact W|]. destruct F as [F1 F2].
+  change (wrun w (o :: ops)) with (wrun (fst (wstep w o)) ops). apply IH; auto. now apply wf_world_step.
+Qed.
+Corollary wf_world_from_empty ops : wf_ops empty_world ops -> wf_world (wrun empty_world ops).
+Proof. apply wf_world_run. intros i Hi. cbn in Hi. lia. Qed.
 
 (* sets[i] & sets[j], then any history: the result's members are, at every later moment, the union of the operands' CURRENT members
    (the very objects), and its override is the merged one unless re-assigned *)
@@ -193,6 +251,12 @@ Definition sharing_check : bool :=
 Example sharing_nonvacuous : sharing_check = true.
 Proof. vm_compute. reflexivity. Qed.
 
+(* the build program of the example is well-addressed, so the worlds it reaches satisfy the premise wf_world of the theorems above *)
+Example sharing_program_wf :
+  wf_ops empty_world [WCell {| sp_op := OGe; sp_text := [49;46;48]%N |} None; WCell {| sp_op := OLt; sp_text := [51]%N |} None;
+                      WSet [0] None; WSet [1] None; WAnd 0 1; WCellOv 0 (Some true)].
+Proof. cbn. repeat split; repeat constructor. Qed.
+Print Assumptions wf_world_from_empty.
 Print Assumptions world_history.
 Print Assumptions reads_depend_on_latest.
 Print Assumptions and_shares_members.
